@@ -1,5 +1,7 @@
 """C15 — merkle roots, witness merkle root, CBlock constructor decision, weights."""
+import copy
 import hashlib
+import json
 import struct
 
 from ..framework import Prop, mk, guarded, ensure_repo_on_path
@@ -86,6 +88,117 @@ def parse_txs(s):
     return [txfmt.parse_tx(p) for p in s.split('/')] if s else []
 
 
+def apply_dups(txs, dup):
+    """[a, b]: position a holds the SAME object as position b"""
+    for a, b in dup:
+        txs[a] = txs[b]
+    return txs
+
+
+def apply_plain(txs, edits):
+    """the edit script on plain values (a tx that occupies two positions is one dict, edited once)"""
+    for e in edits:
+        op, k = e[0], e[1]
+        t = txs[k]
+        if op == 'nv':
+            t['vout'][e[2]] = (e[3], t['vout'][e[2]][1])
+        elif op == 'spk':
+            t['vout'][e[2]] = (t['vout'][e[2]][0], bytes.fromhex(e[3]))
+        elif op == 'sig':
+            h, n, _, q = t['vin'][e[2]]
+            t['vin'][e[2]] = (h, n, bytes.fromhex(e[3]), q)
+        elif op == 'seq':
+            h, n, s_, _ = t['vin'][e[2]]
+            t['vin'][e[2]] = (h, n, s_, e[3])
+        elif op == 'pn':
+            h, _, s_, q = t['vin'][e[2]]
+            t['vin'][e[2]] = (h, e[3], s_, q)
+        elif op == 'ph':
+            _, n, s_, q = t['vin'][e[2]]
+            t['vin'][e[2]] = (bytes.fromhex(e[3]), n, s_, q)
+        elif op == 'po':
+            _, _, s_, q = t['vin'][e[2]]
+            t['vin'][e[2]] = (bytes.fromhex(e[3]), e[4], s_, q)
+        elif op == 'addin':
+            t['vin'].append((bytes.fromhex(e[2]), e[3], b'', 0xffffffff))
+        elif op == 'addout':
+            t['vout'].append((e[2], bytes.fromhex(e[3])))
+        elif op == 'delin':
+            del t['vin'][e[2]]
+            if t.get('wit') and len(t['wit']) > len(t['vin']):
+                t['wit'] = t['wit'][:len(t['vin'])]
+        elif op == 'delout':
+            del t['vout'][e[2]]
+        elif op == 'lock':
+            t['lock'] = e[2]
+        elif op == 'ver':
+            t['ver'] = e[2]
+        elif op == 'wit':
+            t['wit'] = None if e[2] is None else [[bytes.fromhex(x) for x in st] for st in e[2]]
+    return txs
+
+
+def apply_objs(objs, edits):
+    """the same edit script, in place, on CMutableTransaction objects"""
+    import bitcoin.core as C
+    from bitcoin.core.script import CScript, CScriptWitness
+    for e in edits:
+        op, k = e[0], e[1]
+        t = objs[k]
+        if op == 'nv':
+            t.vout[e[2]].nValue = e[3]
+        elif op == 'spk':
+            t.vout[e[2]].scriptPubKey = CScript(bytes.fromhex(e[3]))
+        elif op == 'sig':
+            t.vin[e[2]].scriptSig = CScript(bytes.fromhex(e[3]))
+        elif op == 'seq':
+            t.vin[e[2]].nSequence = e[3]
+        elif op == 'pn':
+            t.vin[e[2]].prevout.n = e[3]
+        elif op == 'ph':
+            t.vin[e[2]].prevout.hash = bytes.fromhex(e[3])
+        elif op == 'po':
+            t.vin[e[2]].prevout = C.CMutableOutPoint(bytes.fromhex(e[3]), e[4])
+        elif op == 'addin':
+            t.vin.append(C.CMutableTxIn(C.CMutableOutPoint(bytes.fromhex(e[2]), e[3])))
+        elif op == 'addout':
+            t.vout.append(C.CMutableTxOut(e[2], CScript(bytes.fromhex(e[3]))))
+        elif op == 'delin':
+            del t.vin[e[2]]
+            if len(t.wit.vtxinwit) > len(t.vin):
+                t.wit = C.CTxWitness(tuple(t.wit.vtxinwit[:len(t.vin)]))
+        elif op == 'delout':
+            del t.vout[e[2]]
+        elif op == 'lock':
+            t.nLockTime = e[2]
+        elif op == 'ver':
+            t.nVersion = e[2]
+        elif op == 'wit':
+            t.wit = txfmt.to_witness(dict(wit=None if e[2] is None else
+                                          [[bytes.fromhex(x) for x in st] for st in e[2]]))
+    return objs
+
+
+HIST_HDR = dict(ver=2, prev=b'\x11' * 32, time=1700000000, bits=0x207fffff, nonce=7)
+
+
+def hist_plain(args):
+    """(transactions as they are when the block is built, declared root) of a c15.hist case"""
+    kind, mode, _, txs_s, dup_s, e1_s, _ = args
+    dup = json.loads(dup_s)
+    txs0 = apply_dups(parse_txs(txs_s), dup)
+    stale = ref_root([txid(t) for t in txs0])
+    txs1 = apply_plain(txs0, json.loads(e1_s))
+    if kind.startswith('deser'):
+        # only a witness with one stack per input survives the wire (the parser reads len(vin) stacks)
+        for t in txs1:
+            if t.get('wit'):
+                t['wit'] = t['wit'] + [[] for _ in range(len(t['vin']) - len(t['wit']))]
+    right = ref_root([txid(t) for t in txs1])
+    root = {'zero': ZERO32, 'right': right, 'stale': stale, 'wrong': dsha(right)}[mode]
+    return txs1, root
+
+
 def rnd_bytes(rng, n):
     return rng.getrandbits(8 * n).to_bytes(n, 'little') if n else b''
 
@@ -148,7 +261,10 @@ class C15(Prop):
             'boundary script lengths and witness patterns and of the generated blocks; every CompactSize-encoded count / '
             'length (block tx count 252/253/254.., vin/vout counts, script lengths, witness item counts and lengths; '
             '0xffff/0x10000 for lengths in quick and for counts in thorough) driven across its boundaries for GetWeight, '
-            'both serialize() lengths and every calc_weight (op c15.sizes); non-trivial = every case '
+            'both serialize() lengths and every calc_weight (op c15.sizes); transactions with a history (op c15.hist): '
+            'blocks built from CTransaction / fresh CMutableTransaction / deserialised objects / the same object twice / '
+            'CMutableTransaction objects whose GetTxid, GetHash, hash, serialize, calc_weight were called before in-place '
+            'edits, observed when built and again after the originals are edited once more; non-trivial = every case '
             '(no default-constructed object is generated); distinct by canonical request line')
 
     def setup(self):
@@ -167,6 +283,7 @@ class C15(Prop):
         yield from self.gen_tx_lists(rng, big)
         yield from self.gen_weights(rng, big)
         yield from self.gen_sizes(rng, big)
+        yield from self.gen_histories(rng, big)
 
     def mine(self):
         self._g += 1
@@ -416,6 +533,77 @@ class C15(Prop):
                 yield mk('c15.sizes', blk, tag='sizes ' + name)
                 yield mk('c15.spec.sizes', blk, tag='spec-sizes ' + name)
 
+    # ---- transactions with a history: caches warmed, edited in place, block built, originals edited again --
+    def gen_histories(self, rng, big):
+        kinds = ['imm', 'mut', 'hist', 'hist', 'hist', 'deser', 'deser-mut', 'same-imm', 'same-hist']
+        warms = ['GetTxid', 'GetHash', 'hash', 'serialize', 'calc_weight']
+        for rep in range(10 if big else 1):
+            for n in (1, 2, 3, 4, 5, 8, 13) + ((33, 70) if big else ()):
+                for kind in kinds:
+                    for pat in ('none', 'mixed'):
+                        if not self.mine():
+                            continue
+                        txs = self.tx_list(rng, n, pat)
+                        dup = []
+                        if kind.startswith('same') and n >= 2:
+                            for _ in range(rng.randrange(1, 3)):
+                                a, b = rng.randrange(1, n), rng.randrange(1, n) if n > 2 else 1
+                                if a != b:
+                                    dup.append([a, b])
+                        warm = [w for w in warms if rng.random() < 0.7] or ['GetTxid']
+                        e1 = self.edit_script(rng, txs, dup, rng.randrange(1, 4))
+                        txs1 = apply_plain(apply_dups(copy.deepcopy(txs), dup), e1)
+                        e2 = self.edit_script(rng, txs1, [], rng.randrange(1, 4))
+                        for mode in ('zero', 'right', 'stale', 'wrong'):
+                            yield mk('c15.hist', kind, mode, ','.join(warm), show_txs(txs), json.dumps(dup),
+                                     json.dumps(e1), json.dumps(e2), tag='hist %s n=%d %s %s' % (kind, n, pat, mode))
+
+    def edit_script(self, rng, txs, dup, count):
+        """a list of in-place edits (plain JSON) valid for the given transactions, applied in order"""
+        cur = apply_dups(copy.deepcopy(txs), dup)
+        out = []
+        for _ in range(count):
+            k = rng.randrange(len(cur))
+            t = cur[k]
+            choices = ['nv', 'spk', 'sig', 'seq', 'pn', 'ph', 'po', 'addin', 'addout', 'lock', 'ver', 'wit', 'witnone']
+            if len(t['vin']) > 1:
+                choices.append('delin')
+            if len(t['vout']) > 1:
+                choices.append('delout')
+            op = rng.choice(choices)
+            j = rng.randrange(len(t['vin'])) if op in ('sig', 'seq', 'pn', 'ph', 'po', 'delin') else \
+                rng.randrange(len(t['vout'])) if op in ('nv', 'spk', 'delout') else 0
+            if op == 'nv':
+                e = [op, k, j, rng.randrange(0, 10 ** 9)]
+            elif op in ('spk', 'sig'):
+                e = [op, k, j, rnd_bytes(rng, rng.choice([0, 1, 5, 30])).hex()]
+            elif op == 'seq':
+                e = [op, k, j, rng.randrange(1 << 32)]
+            elif op == 'pn':
+                e = [op, k, j, rng.randrange(1 << 32)]
+            elif op == 'ph':
+                e = [op, k, j, rnd_bytes(rng, 32).hex()]
+            elif op == 'po':
+                e = [op, k, j, rnd_bytes(rng, 32).hex(), rng.randrange(8)]
+            elif op == 'addin':
+                e = [op, k, rnd_bytes(rng, 32).hex(), rng.randrange(8)]
+            elif op == 'addout':
+                e = [op, k, rng.randrange(10 ** 6), rnd_bytes(rng, 3).hex()]
+            elif op in ('delin', 'delout'):
+                e = [op, k, j]
+            elif op == 'lock':
+                e = [op, k, rng.randrange(1 << 32)]
+            elif op == 'ver':
+                e = [op, k, rng.choice([1, 2, 3, -1])]
+            elif op == 'wit':
+                e = [op, k, [[rnd_bytes(rng, rng.choice([0, 1, 32])).hex() for _ in range(rng.randrange(0, 3))]
+                             for _ in range(rng.randrange(1, len(t['vin']) + 1))]]
+            else:
+                e = ['wit', k, None]
+            apply_plain(cur, [e])
+            out.append(e)
+        return out
+
     def weight_cases(self, t, cls, what):
         s = txfmt.show_tx(t)
         yield mk('c15.weight', cls, s, tag='weight ' + what)
@@ -423,6 +611,9 @@ class C15(Prop):
 
     # ---- the real code ---------------------------------------------------------------------
     def model_line(self, c):
+        if c['op'] == 'c15.hist':
+            txs1, root = hist_plain(c['args'])
+            return 'c15.blockobs\t' + txfmt.show_block(dict(hdr=dict(HIST_HDR, merkle=root), vtx=txs1))
         if c['op'] in ('c15.weight', 'c15.spec.weight'):
             return c['op'] + '\t' + c['args'][1]
         return c.line
@@ -430,6 +621,8 @@ class C15(Prop):
     def impl(self, c):
         C = self.C
         op, a = c['op'], c['args']
+        if op == 'c15.hist':
+            return self.impl_hist(c)
         if op in ('c15.root', 'c15.spec.root'):
             hs = [bytes.fromhex(h) for h in a[0].split(',')] if a[0] else []
             return guarded(lambda: C.CBlock.build_merkle_tree_from_txids(hs)[-1].hex())
@@ -474,12 +667,91 @@ class C15(Prop):
             return guarded(f)
         raise ValueError(op)
 
+    def agree(self, c, io, mo):
+        if c['op'] == 'c15.hist':
+            # observed when built and once more after the originals were edited again: both as the model says
+            return io == mo + '#' + mo
+        return io == mo
+
+    def impl_hist(self, c):
+        C = self.C
+        kind, mode, warm, txs_s, dup_s, e1_s, e2_s = c['args']
+        dup, e1, e2 = json.loads(dup_s), json.loads(e1_s), json.loads(e2_s)
+        txs1, root = hist_plain(c['args'])
+
+        def warm_up(objs):
+            for t in objs:
+                for w in warm.split(','):
+                    guarded(lambda: {'GetTxid': t.GetTxid, 'GetHash': t.GetHash, 'hash': lambda: hash(t),
+                                     'serialize': t.serialize, 'calc_weight': t.calc_weight}[w]())
+        originals = None
+        if kind in ('hist', 'same-hist'):
+            objs = apply_dups([txfmt.to_tx(t, mutable=True) for t in parse_txs(txs_s)], dup)
+            warm_up(objs)
+            apply_objs(objs, e1)
+            originals = objs
+        elif kind in ('imm', 'same-imm'):
+            made = {}       # one object per distinct plain transaction: shared positions share the object
+            objs = [made.setdefault(id(t), txfmt.to_tx(t)) for t in txs1]
+            warm_up(objs)
+        elif kind == 'mut':
+            objs = [txfmt.to_tx(t, mutable=True) for t in txs1]
+            originals = objs
+        elif kind == 'deser':
+            objs = [C.CTransaction.deserialize(txfmt.to_tx(t).serialize()) for t in txs1]
+            warm_up(objs)
+        elif kind == 'deser-mut':
+            objs = [C.CMutableTransaction.deserialize(txfmt.to_tx(t).serialize()) for t in txs1]
+            warm_up(objs)
+            originals = objs
+        else:
+            raise ValueError(kind)
+        # the objects must carry the values the model is asked about (deserialisation may normalise an
+        # all-empty witness to no witness, which no observable here depends on)
+        def norm(t):
+            return dict(t, wit=t['wit'] if has_witness(t) else None)
+        if [norm(txfmt.from_tx(o)) for o in objs] != [norm(t) for t in txs1]:
+            return 'harness:field-values-differ'
+        h = HIST_HDR
+        try:
+            blk = C.CBlock(h['ver'], h['prev'], root, h['time'], h['bits'], h['nonce'], objs)
+        except Exception as e:  # noqa: BLE001
+            r = guarded(lambda: (_ for _ in ()).throw(e))
+            return r + '#' + r
+
+        def observe():
+            r1 = guarded(lambda: blk.calc_merkle_root().hex())
+            r2 = guarded(lambda: blk.calc_merkle_root().hex())
+            for t in blk.vtx:
+                t.GetTxid(), t.GetHash(), hash(t)
+            r3 = guarded(lambda: blk.calc_merkle_root().hex())
+            wm = guarded(lambda: blk.calc_witness_merkle_root().hex())
+            out = ['ok:' + blk.hashMerkleRoot.hex(), r1 if r1 == r2 == r3 else 'unstable:%s/%s/%s' % (r1, r2, r3),
+                   wm, guarded(lambda: str(blk.GetWeight())),
+                   ','.join(guarded(lambda t=t: str(t.calc_weight())) for t in blk.vtx)]
+            if blk.vMerkleTree[-1].hex() != r1:
+                out.append('stored-vMerkleTree-differs')
+            if (blk.vWitnessMerkleTree[-1].hex() if blk.vWitnessMerkleTree else 'err:py:NoWitnessData') != wm:
+                out.append('stored-vWitnessMerkleTree-differs')
+            return ';'.join(out)
+        o1 = observe()
+        if originals is not None:
+            # edit the originals again: the block made immutable copies and must not change
+            # (a deserialised mutable transaction holds immutable inputs/outputs: only its own fields and
+            # lists are edited)
+            top = ('lock', 'ver', 'wit', 'addin', 'addout', 'delin', 'delout')
+            apply_objs(originals, [e for e in e2 if e[1] < len(originals) and (kind != 'deser-mut' or e[0] in top)])
+        return o1 + '#' + observe()
+
     def nontrivial(self, c, io):
         return any(a for a in c['args'])
 
     def shrink_candidates(self, c):
         op, a = c['op'], c['args']
         tag = c.get('tag', '')
+        if op == 'c15.hist':
+            yield from self._shrink_hist(c)
+            return
         if op in ('c15.root', 'c15.spec.root', 'c15.tree'):
             hs = a[0].split(',') if a[0] else []
             for k in self._drops(len(hs)):
@@ -492,6 +764,23 @@ class C15(Prop):
             parts = a[0].split('/')
             for k in self._drops(len(parts) - 1):
                 yield mk(op, '/'.join(parts[:1] + parts[1:][:k[0]] + parts[1:][k[1]:]), tag=tag)
+
+    def _shrink_hist(self, c):
+        a, tag = list(c['args']), c.get('tag', '')
+        e1, e2 = json.loads(a[5]), json.loads(a[6])
+        for k in range(len(e2)):
+            yield mk(c['op'], *(a[:6] + [json.dumps(e2[:k] + e2[k + 1:])]), tag=tag)
+        for k in range(len(e1)):
+            yield mk(c['op'], *(a[:5] + [json.dumps(e1[:k] + e1[k + 1:]), a[6]]), tag=tag)
+        ws = a[2].split(',')
+        for k in range(len(ws)):
+            if len(ws) > 1:
+                yield mk(c['op'], a[0], a[1], ','.join(ws[:k] + ws[k + 1:]), *a[3:], tag=tag)
+        # drop a trailing transaction no edit and no shared position refers to
+        txs = a[3].split('/')
+        used = {e[1] for e in e1 + e2} | {x for d in json.loads(a[4]) for x in d}
+        if len(txs) > 1 and (len(txs) - 1) not in used:
+            yield mk(c['op'], a[0], a[1], a[2], '/'.join(txs[:-1]), *a[4:], tag=tag)
 
     @staticmethod
     def _drops(n):
